@@ -86,7 +86,10 @@ class SimulatedExecutionEnvironment(ExecutionEnvironment):
         deterministic_problem = up.model.Problem(problem.name, problem.environment)
 
         for fluent in problem.fluents:
-            default_value = problem.initial_defaults.get(fluent.type, False)
+            # the fluent's own default wins over the default of its type
+            default_value = problem.fluents_defaults.get(
+                fluent, problem.initial_defaults.get(fluent.type, False)
+            )
             deterministic_problem.add_fluent(
                 fluent, default_initial_value=default_value
             )
